@@ -133,7 +133,8 @@ CLAIMED.update({
                 "mult/div/mod kernels with +infinity. Shortcut predicates are also checked with NON-TERMINAL operands, point-wise: whenever "
                 "a predicate answers 'the result is the first (second) operand', the kernel applied to the operands' values at an arbitrary "
                 "assignment gives that operand's value there (this exposed EV+ 0*infinity, fixed). Loop-free, full symbolic domain. "
-                "Partial: the recursion that applies the kernels, EV* and real kernels, range scans and user maps are not covered.",
+                "The integer range scans MIN_RANGE / MAX_RANGE (recursive, under their own contract): every child of a node, also a transparent one, bounds the "
+                "result (this exposed that the value 0 was never seen, fixed). Partial: the recursion that applies the kernels, EV* and real kernels and user maps are not covered.",
         "note": COMMON_NOTE + " Jobs with 64-bit multiply/divide/remainder equivalences run only in the thorough tier.",
         "design_ref": "DESIGN.md A.1, 4 U-arith",
     },
